@@ -8,6 +8,27 @@ fn r<T, E: std::fmt::Debug>(x: Result<T, E>, f: impl FnOnce(T) -> String) -> Out
     match x { Ok(v) => Out::Ok(f(v)), Err(e) => Out::Err(format!("{:?}", e)) }
 }
 
+pub fn rows(s: &str) -> Vec<Vec<Felt>> {
+    if s == "-" { return vec![]; }
+    s.split(';').map(|r| r.split(':').map(felt).collect()).collect()
+}
+fn tcfg(r: &[Felt]) -> table::config::Config {
+    if r.len() != 3 { panic!("HX-BAD-INPUT tcfg") }
+    table::config::Config { n_columns: r[0], vector: vector::config::Config { height: r[1], n_verifier_friendly_commitment_layers: r[2] } }
+}
+pub fn fri_cfg(lis: &str, nl: &str, last: &str, steps: &str, inner: &str) -> swiftness_fri::config::Config {
+    swiftness_fri::config::Config { log_input_size: felt(lis), n_layers: felt(nl), log_last_layer_degree_bound: felt(last),
+        fri_step_sizes: felts(steps), inner_layers: rows(inner).iter().map(|r| tcfg(r)).collect() }
+}
+pub fn fri_witness(s: &str) -> swiftness_fri::types::Witness {
+    let layers = if s == "-" { vec![] } else { s.split(';').map(|l| {
+        let (a, b) = l.split_once('|').unwrap_or_else(|| panic!("HX-BAD-INPUT fri witness"));
+        swiftness_fri::types::LayerWitness { leaves: felts(a),
+            table_witness: table::types::Witness { vector: vector::types::Witness { authentications: felts(b) } } }
+    }).collect() };
+    swiftness_fri::types::Witness { layers }
+}
+
 pub fn run(op: &str, a: &[&str]) -> Option<Out> {
     Some(match op {
         // ---- hash primitives -------------------------------------------------------------
@@ -93,6 +114,38 @@ pub fn run(op: &str, a: &[&str]) -> Option<Out> {
             let d = table::types::Decommitment { values: felts(a[5]) };
             let w = table::types::Witness { vector: vector::types::Witness { authentications: felts(a[6]) } };
             r(table::decommit::table_decommit(c, &felts(a[4]), d, w), |_| String::new())
+        }
+        // fri <digest> <counter> <lis> <nlayers> <last> <steps> <inner> <roots> <lastcoefs> <queries> <values> <points> <witness>
+        "fri" => {
+            let mut t = Transcript::new_with_counter(felt(a[0]), felt(a[1]));
+            let cfg = fri_cfg(a[2], a[3], a[4], a[5], a[6]);
+            let uc = swiftness_fri::types::UnsentCommitment { inner_layers: felts(a[7]), last_layer_coefficients: felts(a[8]) };
+            let c = swiftness_fri::fri::fri_commit(&mut t, uc, cfg);
+            let d = swiftness_fri::types::Decommitment { values: felts(a[10]), points: felts(a[11]) };
+            r(swiftness_fri::fri::fri_verify(&felts(a[9]), c, d, fri_witness(a[12])), |_| format!("{} {}", hx(t.digest()), hx(t.counter())))
+        }
+        // fri_formula <values> <eval_point> <x_inv> <coset_size>
+        "fri_formula" => r(swiftness_fri::formula::fri_formula(felts(a[0]), felt(a[1]), felt(a[2]), felt(a[3])), |v| hx(&v)),
+        // next_layer <q idx> <q y> <q xinv> <siblings> <coset_size> <eval_point>
+        "next_layer" => {
+            let (qi, qy, qx) = (felts(a[0]), felts(a[1]), felts(a[2]));
+            if qi.len() != qy.len() || qi.len() != qx.len() { panic!("HX-BAD-INPUT next_layer") }
+            let mut qs: Vec<swiftness_fri::layer::FriLayerQuery> = (0..qi.len())
+                .map(|i| swiftness_fri::layer::FriLayerQuery { index: qi[i], y_value: qy[i], x_inv_value: qx[i] }).collect();
+            let mut sibs = felts(a[3]);
+            let params = swiftness_fri::layer::FriLayerComputationParams { coset_size: felt(a[4]),
+                fri_group: swiftness_fri::group::get_fri_group(), eval_point: felt(a[5]) };
+            r(swiftness_fri::layer::compute_next_layer(&mut qs, &mut sibs, params), |(nq, vi, vy)| format!("{} {} {} {} {}",
+                hxs(&nq.iter().map(|q| q.index).collect::<Vec<_>>()), hxs(&nq.iter().map(|q| q.y_value).collect::<Vec<_>>()),
+                hxs(&nq.iter().map(|q| q.x_inv_value).collect::<Vec<_>>()), hxs(&vi), hxs(&vy)))
+        }
+        // last_layer <q y> <q xinv> <coefficients>
+        "last_layer" => {
+            let (qy, qx) = (felts(a[0]), felts(a[1]));
+            if qy.len() != qx.len() { panic!("HX-BAD-INPUT last_layer") }
+            let qs: Vec<swiftness_fri::layer::FriLayerQuery> = (0..qy.len())
+                .map(|i| swiftness_fri::layer::FriLayerQuery { index: Felt::ZERO, y_value: qy[i], x_inv_value: qx[i] }).collect();
+            r(swiftness_fri::last_layer::verify_last_layer(qs, felts(a[2])), |_| String::new())
         }
         // vcfg <height> <nf> <expected height> <expected nf>
         "vcfg" => r(vector::config::Config { height: felt(a[0]), n_verifier_friendly_commitment_layers: felt(a[1]) }
